@@ -413,6 +413,373 @@ theorem bubble_stop (items : List α) (r : List Nat) (h : (bubble down recy item
 
 end Bubble
 
+/-! ## Convergence of the bubble loop on a strict partial order -/
+
+section Converge
+variable {α : Type} (down : α → α → Bool) (recy : α → α → List Nat)
+
+/-- number of later items that the item at position `k` is downstream of -/
+def laterCount (l : List α) (k : Nat) : Nat :=
+  match l[k]? with
+  | some x => (l.drop (k + 1)).countP (down x)
+  | none => 0
+
+/-- positions `< k` are final: no later item has to come before them -/
+def Settled (l : List α) (k : Nat) : Prop := ∀ m, m < k → laterCount down l m = 0
+
+/-- `l'` agrees with `l` at positions `≤ k` and is a permutation of it -/
+def SameUpTo (k : Nat) (l l' : List α) : Prop := l'.take (k + 1) = l.take (k + 1) ∧ l'.Perm l
+
+theorem SameUpTo.mono {k m : Nat} {l l' : List α} (h : SameUpTo k l l') (hm : m ≤ k) : SameUpTo m l l' := by
+  refine ⟨?_, h.2⟩
+  have := congrArg (List.take (m + 1)) h.1
+  rw [List.take_take, List.take_take, Nat.min_eq_left (by omega)] at this
+  exact this
+
+theorem perm_drop_of_take_eq {l l' : List α} {k : Nat} (hp : l'.Perm l) (ht : l'.take k = l.take k) :
+    (l'.drop k).Perm (l.drop k) := by
+  have h1 : (l'.take k ++ l'.drop k).Perm (l.take k ++ l.drop k) := by
+    rw [List.take_append_drop, List.take_append_drop]; exact hp
+  rw [ht] at h1
+  exact (List.perm_append_left_iff _).mp h1
+
+theorem SameUpTo.laterCount_eq {k : Nat} {l l' : List α} (h : SameUpTo k l l') :
+    laterCount down l' k = laterCount down l k := by
+  have hk : l'[k]? = l[k]? := by
+    have h1 : (l'.take (k + 1))[k]? = l'[k]? := List.getElem?_take_of_lt (Nat.lt_succ_self k)
+    have h2 : (l.take (k + 1))[k]? = l[k]? := List.getElem?_take_of_lt (Nat.lt_succ_self k)
+    rw [← h1, ← h2, h.1]
+  have hd : (l'.drop (k + 1)).Perm (l.drop (k + 1)) := perm_drop_of_take_eq h.2 h.1
+  unfold laterCount
+  rw [hk]
+  cases l[k]? with
+  | none => rfl
+  | some x => exact hd.countP_eq _
+
+theorem SameUpTo.trans {k : Nat} {l l' l'' : List α} (h1 : SameUpTo k l l') (h2 : SameUpTo k l' l'') : SameUpTo k l l'' :=
+  ⟨h2.1.trans h1.1, h2.2.trans h1.2⟩
+
+theorem SameUpTo.settled {k : Nat} {l l' : List α} (h : SameUpTo k l l') (hs : Settled down l (k + 1)) :
+    Settled down l' (k + 1) := by
+  intro m hm
+  rw [(h.mono (by omega : m ≤ k)).laterCount_eq down]
+  exact hs m hm
+
+/-- moving `l[j]` to position `i ≤ j` leaves the positions before `i` alone -/
+theorem move_sameUpTo {l : List α} {i j m : Nat} {p : α} (hj : l[j]? = some p) (hm : m < i) (hij : i ≤ j) :
+    SameUpTo m l ((l.eraseIdx j).insertIdx i p) := by
+  refine ⟨?_, move_perm hj hij⟩
+  apply List.ext_getElem?
+  intro n
+  rw [List.getElem?_take, List.getElem?_take]
+  split
+  · rw [List.getElem?_insertIdx_of_lt (by omega), List.getElem?_eraseIdx_of_lt (by omega)]
+  · rfl
+
+theorem mem_drop_iff {l : List α} {n : Nat} {d : α} : d ∈ l.drop n ↔ ∃ i, n ≤ i ∧ l[i]? = some d := by
+  rw [List.mem_iff_getElem?]
+  constructor
+  · rintro ⟨i, hi⟩
+    rw [List.getElem?_drop] at hi
+    exact ⟨n + i, by omega, hi⟩
+  · rintro ⟨i, hni, hi⟩
+    refine ⟨i - n, ?_⟩
+    rw [List.getElem?_drop]
+    have : n + (i - n) = i := by omega
+    rw [this]; exact hi
+
+theorem laterCount_zero_iff {l : List α} {k : Nat} {x : α} (hx : l[k]? = some x) :
+    laterCount down l k = 0 ↔ findFrom (fun d => down x d) l (k + 1) 0 = none := by
+  unfold laterCount
+  rw [hx]
+  simp only
+  rw [List.countP_eq_zero]
+  constructor
+  · intro h
+    cases hf : findFrom (fun d => down x d) l (k + 1) 0 with
+    | none => rfl
+    | some j =>
+      obtain ⟨_, hs, ⟨d, hd, hp⟩, _⟩ := findFrom_some hf
+      simp only [Nat.sub_zero] at hd
+      exact absurd hp (h d (mem_drop_iff.mpr ⟨j, hs, hd⟩))
+  · intro hf d hd
+    obtain ⟨i, hi, hid⟩ := mem_drop_iff.mp hd
+    have := findFrom_none hf i d (by omega) hid
+    rw [this]; simp
+
+theorem passStep_none {st : BState α} {i : Nat} {up : α} (hup : st.items[i]? = some up)
+    (hf : findFrom (fun d => down up d) st.items (i + 1) 0 = none) : passStep down recy st i = st := by
+  unfold passStep
+  simp only [hup, hf]
+
+theorem passStep_move {st : BState α} {i j : Nat} {up dn : α} (hup : st.items[i]? = some up)
+    (hf : findFrom (fun d => down up d) st.items (i + 1) 0 = some j) (hdn : st.items[j]? = some dn)
+    (hnm : down dn up = false) :
+    passStep down recy st i = { st with items := (st.items.eraseIdx j).insertIdx i dn, stop := false } := by
+  unfold passStep
+  simp only [hup, hf, hdn, hnm, Bool.false_eq_true, if_false]
+
+theorem passStep_oob {st : BState α} {i : Nat} (h : st.items[i]? = none) : passStep down recy st i = st := by
+  unfold passStep
+  simp only [h]
+
+/-- `down` is a strict partial order on the items of `l` -/
+structure StrictOn (l : List α) : Prop where
+  irrefl : ∀ a, a ∈ l → down a a = false
+  trans : ∀ a b c, a ∈ l → b ∈ l → c ∈ l → down a b = true → down b c = true → down a c = true
+
+theorem StrictOn.perm {l l' : List α} (h : StrictOn down l) (p : l'.Perm l) : StrictOn down l' :=
+  ⟨fun a ha => h.irrefl a (p.mem_iff.mp ha),
+   fun a b c ha hb hc => h.trans a b c (p.mem_iff.mp ha) (p.mem_iff.mp hb) (p.mem_iff.mp hc)⟩
+
+theorem StrictOn.asymm {l : List α} (h : StrictOn down l) {a b : α} (ha : a ∈ l) (hb : b ∈ l)
+    (hab : down a b = true) : down b a = false := by
+  cases hba : down b a with
+  | false => rfl
+  | true =>
+    have := h.trans a b a ha hb ha hab hba
+    rw [h.irrefl a ha] at this; exact absurd this (by simp)
+
+theorem StrictOn.noMutual {l : List α} (h : StrictOn down l) : NoMutual down l := by
+  intro a b ha hb ⟨h1, h2⟩
+  rw [h.asymm down ha hb h1] at h2; exact absurd h2 (by simp)
+
+theorem countP_lt_of_imp {p q : α → Bool} {L : List α} (himp : ∀ x, x ∈ L → p x = true → q x = true)
+    {w : α} (hw : w ∈ L) (hq : q w = true) (hp : p w = false) : L.countP p < L.countP q := by
+  induction L with
+  | nil => exact absurd hw List.not_mem_nil
+  | cons y ys ih =>
+    rw [List.countP_cons, List.countP_cons]
+    have hle : ys.countP p ≤ ys.countP q := List.countP_mono_left (fun x hx => himp x (List.mem_cons_of_mem _ hx))
+    rcases List.mem_cons.mp hw with rfl | hw'
+    · simp only [hq, hp, if_true, Bool.false_eq_true, if_false]; omega
+    · have hlt := ih (fun x hx => himp x (List.mem_cons_of_mem _ hx)) hw'
+      by_cases hpy : p y = true
+      · have hqy := himp y (List.mem_cons_self ..) hpy
+        simp only [hpy, hqy, if_true]; omega
+      · by_cases hqy : q y = true
+        · simp only [hpy, hqy, if_true, Bool.false_eq_true, if_false]; omega
+        · simp only [hpy, hqy, Bool.false_eq_true, if_false]; omega
+
+/-- the step at the first unsettled position `k` moves an item there and lowers `laterCount · k` -/
+theorem passStep_at_unsettled {st : BState α} {k : Nat} (hso : StrictOn down st.items)
+    (hset : Settled down st.items k) (hpos : 0 < laterCount down st.items k) :
+    ∃ l', passStep down recy st k = { st with items := l', stop := false } ∧ l'.Perm st.items ∧
+      Settled down l' k ∧ laterCount down l' k < laterCount down st.items k := by
+  cases hx : st.items[k]? with
+  | none => unfold laterCount at hpos; rw [hx] at hpos; exact absurd hpos (by simp)
+  | some x =>
+    cases hf : findFrom (fun d => down x d) st.items (k + 1) 0 with
+    | none => rw [(laterCount_zero_iff down hx).mpr hf] at hpos; exact absurd hpos (by simp)
+    | some j =>
+      obtain ⟨_, hjk, ⟨p, hp, hxp⟩, _⟩ := findFrom_some hf
+      simp only [Nat.sub_zero] at hp
+      have hxm : x ∈ st.items := List.mem_of_getElem? hx
+      have hpm : p ∈ st.items := List.mem_of_getElem? hp
+      have hpx : down p x = false := hso.asymm down hxm hpm hxp
+      have hkj : k ≤ j := by omega
+      refine ⟨(st.items.eraseIdx j).insertIdx k p, passStep_move down recy hx hf hp hpx, move_perm hp hkj, ?_, ?_⟩
+      · intro m hm
+        rw [(move_sameUpTo hp hm hkj).laterCount_eq down]
+        exact hset m hm
+      · -- the new item at `k` is `p`; what follows it is, up to order, what followed `x`, with `p` replaced by `x`
+        have hperm := move_perm (i := k) hp hkj
+        have hjl : j < st.items.length := by
+          rcases Nat.lt_or_ge j st.items.length with h | h
+          · exact h
+          · rw [List.getElem?_eq_none h] at hp; exact absurd hp (by simp)
+        have hlen : k ≤ (st.items.eraseIdx j).length := by
+          rw [List.length_eraseIdx]; simp [hjl]; omega
+        have hnew : ((st.items.eraseIdx j).insertIdx k p)[k]? = some p := by
+          rw [List.getElem?_insertIdx_self]; simp [hlen]
+        have htake : ((st.items.eraseIdx j).insertIdx k p).take k = st.items.take k := by
+          apply List.ext_getElem?
+          intro n
+          rw [List.getElem?_take, List.getElem?_take]
+          split
+          · rw [List.getElem?_insertIdx_of_lt (by omega), List.getElem?_eraseIdx_of_lt (by omega)]
+          · rfl
+        have hdrop : (((st.items.eraseIdx j).insertIdx k p).drop k).Perm (st.items.drop k) :=
+          perm_drop_of_take_eq hperm htake
+        rw [List.drop_eq_getElem?_toList_append, List.drop_eq_getElem?_toList_append (l := st.items), hnew, hx] at hdrop
+        simp only [Option.toList_some, List.singleton_append] at hdrop
+        have hc := hdrop.countP_eq (down p)
+        rw [List.countP_cons, List.countP_cons, hso.irrefl p hpm, hpx] at hc
+        simp only [Bool.false_eq_true, if_false, Nat.add_zero] at hc
+        unfold laterCount
+        rw [hnew, hx]
+        simp only
+        rw [hc]
+        have hpl : p ∈ st.items.drop (k + 1) := mem_drop_iff.mpr ⟨j, hjk, hp⟩
+        apply countP_lt_of_imp (w := p) _ hpl hxp (hso.irrefl p hpm)
+        intro d hd hpd
+        exact hso.trans x p d hxm hpm (List.mem_of_mem_drop hd) hxp hpd
+
+/-- a later step (`i > k`) leaves positions `≤ k` alone -/
+theorem passStep_later {st : BState α} {i k : Nat} (hki : k < i) (hso : StrictOn down st.items) :
+    SameUpTo k st.items (passStep down recy st i).items ∧
+      ((passStep down recy st i).stop = st.stop ∨ (passStep down recy st i).stop = false) := by
+  rcases passStep_cases down recy st i with e | ⟨up, dn, hu, hd, h1, h2, _⟩ | ⟨j, dn, hj, hij, e⟩
+  · rw [e]; exact ⟨⟨rfl, List.Perm.refl _⟩, .inl rfl⟩
+  · exact absurd ⟨h1, h2⟩ (hso.noMutual down up dn hu hd)
+  · rw [e]; exact ⟨move_sameUpTo hj hki hij, .inr rfl⟩
+
+/-- state of the pass before step `n`, when `k` is the first unsettled position of `l` -/
+def PassInv (l : List α) (r : List Nat) (k n : Nat) (st : BState α) : Prop :=
+  if n ≤ k then st = { items := l, recycle := r, stop := true }
+  else st.stop = false ∧ st.items.Perm l ∧ Settled down st.items k ∧ laterCount down st.items k < laterCount down l k
+
+theorem pass_inv (l : List α) (r : List Nat) (k : Nat) (hso : StrictOn down l) (hset : Settled down l k)
+    (hpos : 0 < laterCount down l k) (n : Nat) :
+    PassInv down l r k n ((List.range n).foldl (passStep down recy) { items := l, recycle := r, stop := true }) := by
+  induction n with
+  | zero => simp [PassInv]
+  | succ n ih =>
+    rw [List.range_succ, List.foldl_append]
+    simp only [List.foldl_cons, List.foldl_nil]
+    generalize (List.range n).foldl (passStep down recy) { items := l, recycle := r, stop := true } = st at ih
+    unfold PassInv at ih ⊢
+    by_cases hn : n + 1 ≤ k
+    · -- still in the settled prefix: the step does nothing
+      simp only [hn, if_true]
+      have : n ≤ k := by omega
+      simp only [this, if_true] at ih
+      subst ih
+      cases hx : l[n]? with
+      | none => exact passStep_oob down recy hx
+      | some x =>
+        exact passStep_none down recy hx ((laterCount_zero_iff down hx).mp (hset n (by omega)))
+    · simp only [hn, if_false]
+      by_cases hnk : n ≤ k
+      · -- n = k: the move
+        simp only [hnk, if_true] at ih
+        subst ih
+        have : n = k := by omega
+        subst this
+        obtain ⟨l', e, hp, hs, hlt⟩ := passStep_at_unsettled down recy (st := { items := l, recycle := r, stop := true }) hso hset hpos
+        rw [e]
+        exact ⟨rfl, hp, hs, hlt⟩
+      · simp only [hnk, if_false] at ih
+        obtain ⟨hstop, hperm, hs, hlt⟩ := ih
+        have hso' := hso.perm down hperm
+        obtain ⟨same, hst⟩ := passStep_later down recy (st := st) (i := n) (k := k) (by omega) hso'
+        refine ⟨?_, same.2.trans hperm, ?_, ?_⟩
+        · rcases hst with h | h
+          · rw [h]; exact hstop
+          · exact h
+        · intro m hm
+          rw [(same.mono (by omega : m ≤ k)).laterCount_eq down]
+          exact hs m hm
+        · rw [same.laterCount_eq down]; exact hlt
+
+theorem laterCount_le (l : List α) (k : Nat) : laterCount down l k ≤ l.length - (k + 1) := by
+  unfold laterCount
+  cases l[k]? with
+  | none => exact Nat.zero_le _
+  | some x =>
+    simp only
+    exact Nat.le_trans List.countP_le_length (by rw [List.length_drop]; exact Nat.le_refl _)
+
+/-- a pass over a completely settled list is clean -/
+theorem onePass_settled (l : List α) (r : List Nat) (hset : Settled down l (l.length - 1)) :
+    onePass down recy l r = { items := l, recycle := r, stop := true } := by
+  unfold onePass
+  have : ∀ n, n ≤ l.length - 1 →
+      (List.range n).foldl (passStep down recy) { items := l, recycle := r, stop := true } = { items := l, recycle := r, stop := true } := by
+    intro n hn
+    induction n with
+    | zero => rfl
+    | succ n ih =>
+      rw [List.range_succ, List.foldl_append, ih (by omega)]
+      simp only [List.foldl_cons, List.foldl_nil]
+      cases hx : l[n]? with
+      | none => exact passStep_oob down recy hx
+      | some x => exact passStep_none down recy hx ((laterCount_zero_iff down hx).mp (hset n (by omega)))
+  exact this _ (Nat.le_refl _)
+
+/-- an unsettled pass: not clean, same items up to order, recycle untouched, progress at `k` -/
+theorem onePass_unsettled (l : List α) (r : List Nat) (k : Nat) (hso : StrictOn down l) (hset : Settled down l k)
+    (hpos : 0 < laterCount down l k) :
+    (onePass down recy l r).stop = false ∧ (onePass down recy l r).items.Perm l ∧
+      Settled down (onePass down recy l r).items k ∧
+      laterCount down (onePass down recy l r).items k < laterCount down l k := by
+  have hk : k < l.length - 1 := by
+    have := laterCount_le down l k
+    omega
+  have := pass_inv down recy l r k hso hset hpos (l.length - 1)
+  unfold PassInv at this
+  have hn : ¬ (l.length - 1 ≤ k) := by omega
+  simp only [hn, if_false] at this
+  exact this
+
+/-- convergence: with `m` positions still open beyond `k` and at most `b` more moves needed at `k`,
+`b + m·N + 1` passes are enough -/
+theorem passes_converge (N : Nat) :
+    ∀ (m k b fuel : Nat) (st : BState α), st.items.length = N → k + m + 1 = N → StrictOn down st.items →
+      Settled down st.items k → laterCount down st.items k ≤ b → b + m * N + 1 ≤ fuel →
+      (passes down recy fuel st).stop = true := by
+  intro m
+  induction m with
+  | zero =>
+    intro k b fuel st hN hk hso hset hb hfuel
+    -- k = N - 1 : the last position never has a later item
+    have hlast : laterCount down st.items k = 0 := by
+      have := laterCount_le down st.items k; omega
+    have hall : Settled down st.items (st.items.length - 1) := by
+      intro i hi; exact hset i (by omega)
+    cases fuel with
+    | zero => omega
+    | succ fuel =>
+      unfold passes
+      simp only
+      rw [onePass_settled down recy _ _ hall]
+      simp
+  | succ m ihm =>
+    intro k b
+    induction b with
+    | zero =>
+      intro fuel st hN hk hso hset hb hfuel
+      have hz : laterCount down st.items k = 0 := by omega
+      have hset' : Settled down st.items (k + 1) := by
+        intro i hi
+        rcases Nat.lt_or_ge i k with h | h
+        · exact hset i h
+        · have : i = k := by omega
+          subst this; exact hz
+      have hb' : laterCount down st.items (k + 1) ≤ N - 1 := by
+        have := laterCount_le down st.items (k + 1); omega
+      apply ihm (k + 1) (N - 1) fuel st hN (by omega) hso hset' hb'
+      have : (m + 1) * N = m * N + N := Nat.succ_mul m N
+      omega
+    | succ b ihb =>
+      intro fuel st hN hk hso hset hb hfuel
+      by_cases hz : laterCount down st.items k = 0
+      · exact ihb fuel st hN hk hso hset (by omega) (by omega)
+      · cases fuel with
+        | zero => omega
+        | succ fuel =>
+          obtain ⟨hstop, hperm, hs, hlt⟩ := onePass_unsettled down recy st.items st.recycle k hso hset (by omega)
+          unfold passes
+          simp only [hstop, Bool.false_eq_true, if_false]
+          apply ihb fuel _ (by rw [hperm.length_eq]; exact hN) hk (hso.perm down hperm) hs (by omega) (by omega)
+
+/-- **Convergence of `Network.sort`'s loop.**  If "is downstream of" is a strict partial order on the
+path items (no item reaches itself, reachability is transitive), the `N·N` passes are enough: the
+loop leaves with `stop = true` (no warning). -/
+theorem bubble_converges (items : List α) (r : List Nat) (hso : StrictOn down items) :
+    (bubble down recy items r).stop = true := by
+  unfold bubble
+  simp only
+  cases hN : items.length with
+  | zero => simp [passes]
+  | succ n =>
+    apply passes_converge down recy (n + 1) n 0 n _ _ hN (by omega) hso (fun m hm => absurd hm (Nat.not_lt_zero m))
+    · have := laterCount_le down items 0; simp only at this ⊢; omega
+    · have : (n + 1) * (n + 1) = n * (n + 1) + (n + 1) := Nat.succ_mul n (n + 1)
+      omega
+
+end Converge
+
 /-! ## Path sources -/
 
 /-- item `a` is downstream of item `b`: some unit of `a` is reachable from some unit of `b`
@@ -919,6 +1286,502 @@ theorem hasCycle_sound {g : Graph} (h : hasCycle g = true) : ∃ u, Reach g [] u
   rcases mem_addNew.mp hx with h | h
   · exact absurd h List.not_mem_nil
   · exact Relation.TransGen.single (mem_succs.mp h)
+
+/-! ## The walk finds a recycle whenever it can run into a cycle -/
+
+section Found
+variable {g : Graph} {units : List Nat}
+
+/-- `paths_with_recycle` only grows, and as long as it does not grow `ends` does not change -/
+def Quiet2 (st st' : DfsSt) : Prop :=
+  st.withR.length ≤ st'.withR.length ∧ (st'.withR.length = st.withR.length → st'.ends = st.ends)
+
+theorem Quiet2.refl (st : DfsSt) : Quiet2 st st := ⟨Nat.le_refl _, fun _ => rfl⟩
+
+theorem Quiet2.trans {a b c : DfsSt} (h1 : Quiet2 a b) (h2 : Quiet2 b c) : Quiet2 a c := by
+  refine ⟨Nat.le_trans h1.1 h2.1, fun e => ?_⟩
+  have e1 : b.withR.length = a.withR.length := by have := h1.1; have := h2.1; omega
+  have e2 : c.withR.length = b.withR.length := by omega
+  rw [h2.2 e2, h1.2 e1]
+
+theorem Quiet2.addWithout (st : DfsSt) (p : List Nat) : Quiet2 st (st.addWithout p) := ⟨Nat.le_refl _, fun _ => rfl⟩
+
+theorem Quiet2.addRecycle (st : DfsSt) (p : List Nat) (f : Nat) : Quiet2 st (st.addRecycle p f) := by
+  refine ⟨by simp [DfsSt.addRecycle], fun e => ?_⟩
+  simp [DfsSt.addRecycle] at e
+
+theorem foldlM_quiet (fuel : Nat) (path : List Nat)
+    (ih : ∀ feed st st', fillPath g units fuel feed path st = .ok st' → Quiet2 st st')
+    (os : List Nat) (st st' : DfsSt)
+    (h : os.foldlM (fun st o => fillPath g units fuel o path st) st = .ok st') : Quiet2 st st' := by
+  induction os generalizing st with
+  | nil =>
+    simp only [List.foldlM_nil, pure, Except.pure] at h
+    injection h with h; subst h; exact Quiet2.refl _
+  | cons o os ihos =>
+    simp only [List.foldlM_cons, bind, Except.bind] at h
+    split at h
+    · exact absurd h (by simp)
+    · rename_i st1 h1
+      exact (ih o st st1 h1).trans (ihos st1 h)
+
+theorem fillPath_quiet (fuel : Nat) :
+    ∀ (feed : Nat) (path : List Nat) (st st' : DfsSt), fillPath g units fuel feed path st = .ok st' → Quiet2 st st' := by
+  induction fuel with
+  | zero => intro feed path st st' h; simp [fillPath] at h
+  | succ fuel ih =>
+    intro feed path st st' h
+    unfold fillPath at h
+    split at h
+    · injection h with h; subst h; exact Quiet2.addWithout ..
+    · rename_i unit hk
+      split at h
+      · injection h with h; subst h; exact Quiet2.addWithout ..
+      · split at h
+        · injection h with h; subst h; exact Quiet2.addWithout ..
+        · split at h
+          · split at h
+            · split at h
+              · injection h with h; subst h; exact Quiet2.addWithout ..
+              · injection h with h; subst h; exact Quiet2.addRecycle ..
+            · injection h with h; subst h; exact Quiet2.addRecycle ..
+          · simp only at h
+            split at h
+            · injection h with h; subst h; exact Quiet2.refl _
+            · split at h
+              · exact absurd h (by simp)
+              · rename_i st1 h1
+                exact (foldlM_quiet fuel _ (fun f a b => ih f _ a b) _ st st1 h1).trans (ih _ _ st1 st' h)
+
+/-- Following streams from `f` — never crossing a stream of `E`, never leaving `units` — one comes
+back to a unit that is already on the way (or on `path`), and that unit has an outlet outside `E`. -/
+inductive WalkHits (g : Graph) (units E : List Nat) : Nat → List Nat → Prop
+  | hit {f v : Nat} {path : List Nat} : g.sinkOf f = some v → f ∉ E → v ∈ units → v ∈ path →
+      (∃ o, o ∈ g.outsOf v ∧ o ∉ E) → WalkHits g units E f path
+  | step {f v f' : Nat} {path : List Nat} : g.sinkOf f = some v → f ∉ E → v ∈ units → f' ∈ g.outsOf v → f' ∉ E →
+      WalkHits g units E f' (path ++ [v]) → WalkHits g units E f path
+
+/-- when the sink of `feed` is already on the path and has a live outlet, a recycle is recorded -/
+theorem fillPath_hit {fuel : Nat} {feed v : Nat} {path : List Nat} {st st' : DfsSt}
+    (h : fillPath g units (fuel + 1) feed path st = .ok st')
+    (hk : g.sinkOf feed = some v) (hne : feed ∉ st.ends) (hu : v ∈ units) (hp : v ∈ path)
+    (hlive : ∃ o, o ∈ g.outsOf v ∧ o ∉ st.ends) : st.withR.length < st'.withR.length := by
+  unfold fillPath at h
+  simp only [hk] at h
+  have h1 : units.contains v = true := List.contains_iff_mem.mpr hu
+  have h2 : st.ends.contains feed = false := by
+    cases hc : st.ends.contains feed with
+    | false => rfl
+    | true => exact absurd (List.contains_iff_mem.mp hc) hne
+  have h3 : path.contains v = true := List.contains_iff_mem.mpr hp
+  simp only [h1, h2, h3, Bool.not_true, Bool.false_eq_true, if_false, if_true] at h
+  have hrec : st' = st.addRecycle path feed → st.withR.length < st'.withR.length := by
+    intro e; subst e; simp [DfsSt.addRecycle]
+  split at h
+  · rename_i o ho
+    split at h
+    · rename_i hc
+      obtain ⟨o', ho', hne'⟩ := hlive
+      rw [ho] at ho'
+      simp only [List.mem_singleton] at ho'
+      subst ho'
+      exact absurd (List.contains_iff_mem.mp hc) hne'
+    · injection h with h; exact hrec h.symm
+  · injection h with h; exact hrec h.symm
+
+theorem foldlM_found (fuel : Nat) (path : List Nat) (E : List Nat) (f' : Nat)
+    (ihq : ∀ feed st st', fillPath g units fuel feed path st = .ok st' → Quiet2 st st')
+    (ih : ∀ st st', st.ends = E → fillPath g units fuel f' path st = .ok st' → st.withR.length < st'.withR.length)
+    (os : List Nat) (hf : f' ∈ os) (st st' : DfsSt) (hE : st.ends = E)
+    (h : os.foldlM (fun st o => fillPath g units fuel o path st) st = .ok st') :
+    st.withR.length < st'.withR.length := by
+  induction os generalizing st with
+  | nil => exact absurd hf List.not_mem_nil
+  | cons o os ihos =>
+    simp only [List.foldlM_cons, bind, Except.bind] at h
+    split at h
+    · exact absurd h (by simp)
+    · rename_i st1 h1
+      have q1 := ihq o st st1 h1
+      have q2 := foldlM_quiet fuel path ihq os st1 st' h
+      rcases List.mem_cons.mp hf with rfl | hf'
+      · have := ih st st1 hE h1
+        have := q2.1; omega
+      · by_cases e : st1.withR.length = st.withR.length
+        · have := ihos hf' st1 (by rw [q1.2 e]; exact hE) h
+          omega
+        · have := q1.1; have := q2.1; omega
+
+/-- if the walk from `feed` can run into a cycle, the call records at least one recycle -/
+theorem fillPath_found (fuel : Nat) :
+    ∀ (feed : Nat) (path : List Nat) (st st' : DfsSt), fillPath g units fuel feed path st = .ok st' →
+      WalkHits g units st.ends feed path → st.withR.length < st'.withR.length := by
+  induction fuel with
+  | zero => intro feed path st st' h; simp [fillPath] at h
+  | succ fuel ih =>
+    intro feed path st st' h w
+    generalize hE : st.ends = E at w
+    induction w generalizing st st' with
+    | hit hk hne hu hp hlive =>
+      subst hE
+      exact fillPath_hit h hk hne hu hp hlive
+    | @step f v f' path hk hne hu hf' hne' w _ =>
+      subst hE
+      by_cases hp : v ∈ path
+      · exact fillPath_hit h hk hne hu hp ⟨f', hf', hne'⟩
+      · unfold fillPath at h
+        simp only [hk] at h
+        have h1 : units.contains v = true := List.contains_iff_mem.mpr hu
+        have h2 : st.ends.contains f = false := by
+          cases hc : st.ends.contains f with
+          | false => rfl
+          | true => exact absurd (List.contains_iff_mem.mp hc) hne
+        have h3 : path.contains v = false := by
+          cases hc : path.contains v with
+          | false => rfl
+          | true => exact absurd (List.contains_iff_mem.mp hc) hp
+        simp only [h1, h2, h3, Bool.not_true, Bool.false_eq_true, if_false] at h
+        split at h
+        · rename_i ho; rw [ho] at hf'; exact absurd hf' List.not_mem_nil
+        · rename_i first others ho
+          split at h
+          · exact absurd h (by simp)
+          · rename_i st1 h1'
+            have qf := fun f a b => fillPath_quiet (g := g) (units := units) fuel f (path ++ [v]) a b
+            have q1 := foldlM_quiet fuel _ qf others st st1 h1'
+            have q2 := fillPath_quiet fuel _ _ st1 st' h
+            rw [ho] at hf'
+            rcases List.mem_cons.mp hf' with rfl | hin
+            · -- the cycle continues through the first outlet, explored last
+              by_cases e : st1.withR.length = st.withR.length
+              · have := ih f' (path ++ [v]) st1 st' h (by rw [q1.2 e]; exact w)
+                omega
+              · have := q1.1; have := q2.1; omega
+            · have := foldlM_found fuel (path ++ [v]) st.ends f' qf
+                (fun a b hab hcall => ih f' (path ++ [v]) a b hcall (by rw [hab]; exact w)) others hin st st1 rfl h1'
+              have := q2.1; omega
+
+end Found
+
+/-! ## The bounded iterations never run out of fuel -/
+
+/-- every stream's sink is one of the units `0 … n-1` -/
+def Graph.SinksOK (g : Graph) : Prop := ∀ s v, g.sinkOf s = some v → v < g.n
+
+def sinksOKB (g : Graph) : Bool :=
+  g.snk.all fun o => match o with | some v => decide (v < g.n) | none => true
+
+theorem sinksOK_of_B {g : Graph} (h : sinksOKB g = true) : g.SinksOK := by
+  intro s v hk
+  unfold Graph.sinkOf at hk
+  rw [List.getD_eq_getElem?_getD] at hk
+  cases hs : g.snk[s]? with
+  | none => rw [hs] at hk; simp at hk
+  | some o =>
+    rw [hs] at hk
+    simp only [Option.getD_some] at hk
+    subst hk
+    have := List.all_eq_true.mp h _ (List.mem_of_getElem? hs)
+    simpa using this
+
+theorem succs_lt {g : Graph} (hg : g.SinksOK) {ends : List Nat} {u v : Nat} (h : v ∈ succs g ends u) : v < g.n := by
+  obtain ⟨s, _, _, hk⟩ := mem_succs.mp h
+  exact hg s v hk
+
+theorem addNew_nodup {acc xs : List Nat} (h : acc.Nodup) : (addNew acc xs).Nodup := by
+  unfold addNew
+  induction xs generalizing acc with
+  | nil => exact h
+  | cons x xs ih =>
+    simp only [List.foldl_cons]
+    apply ih
+    split
+    · exact h
+    · rename_i hc
+      have hx : x ∉ acc := fun hm => hc (List.contains_iff_mem.mpr hm)
+      rw [List.nodup_append]
+      refine ⟨h, by simp, ?_⟩
+      intro a ha b hb
+      simp only [List.mem_singleton] at hb
+      subst hb
+      intro e; subst e; exact hx ha
+
+theorem addNew_length_le {acc xs : List Nat} : acc.length ≤ (addNew acc xs).length := by
+  unfold addNew
+  induction xs generalizing acc with
+  | nil => exact Nat.le_refl _
+  | cons x xs ih =>
+    simp only [List.foldl_cons]
+    refine Nat.le_trans ?_ ih
+    split
+    · exact Nat.le_refl _
+    · simp
+
+theorem addNew_eq_self {acc xs : List Nat} (h : ∀ x, x ∈ xs → x ∈ acc) : addNew acc xs = acc := by
+  unfold addNew
+  induction xs with
+  | nil => rfl
+  | cons x xs ih =>
+    simp only [List.foldl_cons]
+    have : acc.contains x = true := List.contains_iff_mem.mpr (h x (List.mem_cons_self ..))
+    simp only [this, if_true]
+    exact ih (fun y hy => h y (List.mem_cons_of_mem _ hy))
+
+theorem addNew_length_lt {acc xs : List Nat} {x : Nat} (hx : x ∈ xs) (hn : x ∉ acc) :
+    acc.length < (addNew acc xs).length := by
+  induction xs generalizing acc with
+  | nil => exact absurd hx List.not_mem_nil
+  | cons y ys ih =>
+    have step : addNew acc (y :: ys) = addNew (if acc.contains y then acc else acc ++ [y]) ys := by
+      simp [addNew]
+    rw [step]
+    by_cases hy : y ∈ acc
+    · have : acc.contains y = true := List.contains_iff_mem.mpr hy
+      simp only [this, if_true]
+      rcases List.mem_cons.mp hx with rfl | hx'
+      · exact absurd hy hn
+      · exact ih hx' hn
+    · have hcf : acc.contains y = false := by
+        cases hc : acc.contains y with
+        | false => rfl
+        | true => exact absurd (List.contains_iff_mem.mp hc) hy
+      simp only [hcf, Bool.false_eq_true, if_false]
+      have := addNew_length_le (acc := acc ++ [y]) (xs := ys)
+      simp at this
+      omega
+
+theorem isClosed_iff {g : Graph} {ends S : List Nat} :
+    isClosed g ends S = true ↔ ∀ x, x ∈ S.flatMap (succs g ends) → x ∈ S := by
+  unfold isClosed
+  rw [List.all_eq_true]
+  constructor
+  · intro h x hx
+    obtain ⟨u, hu, hxu⟩ := List.mem_flatMap.mp hx
+    exact List.contains_iff_mem.mp (List.all_eq_true.mp (h u hu) x hxu)
+  · intro h u hu
+    rw [List.all_eq_true]
+    intro x hx
+    exact List.contains_iff_mem.mpr (h x (List.mem_flatMap.mpr ⟨u, hu, hx⟩))
+
+theorem closeN_of_closed {g : Graph} {ends S : List Nat} (h : isClosed g ends S = true) (k : Nat) :
+    closeN g ends k S = S := by
+  induction k with
+  | zero => rfl
+  | succ k ih =>
+    unfold closeN
+    rw [addNew_eq_self (isClosed_iff.mp h)]
+    exact ih
+
+/-- a duplicate-free list of numbers `< n` has at most `n` entries; with `n` entries it has them all -/
+theorem length_le_of_bounded {S : List Nat} {n : Nat} (hd : S.Nodup) (hb : ∀ x, x ∈ S → x < n) : S.length ≤ n := by
+  have := hd.length_le_of_subset (l₂ := List.range n) (fun x hx => List.mem_range.mpr (hb x hx))
+  simpa using this
+
+theorem full_of_length {S : List Nat} {n : Nat} (hd : S.Nodup) (hb : ∀ x, x ∈ S → x < n) (hl : n ≤ S.length)
+    {x : Nat} (hx : x < n) : x ∈ S := by
+  cases hm : decide (x ∈ S) with
+  | true => exact of_decide_eq_true hm
+  | false =>
+    have hx' : x ∉ S := of_decide_eq_false hm
+    have : (x :: S).length ≤ n := length_le_of_bounded (List.nodup_cons.mpr ⟨hx', hd⟩)
+      (fun y hy => by rcases List.mem_cons.mp hy with rfl | hy; exact hx; exact hb y hy)
+    simp at this; omega
+
+theorem closeN_closed {g : Graph} (hg : g.SinksOK) (ends : List Nat) :
+    ∀ (k : Nat) (S : List Nat), S.Nodup → (∀ x, x ∈ S → x < g.n) → g.n ≤ S.length + k →
+      isClosed g ends (closeN g ends k S) = true := by
+  intro k
+  induction k with
+  | zero =>
+    intro S hd hb hl
+    simp only [closeN]
+    rw [isClosed_iff]
+    intro x hx
+    obtain ⟨u, _, hxu⟩ := List.mem_flatMap.mp hx
+    exact full_of_length hd hb (by omega) (succs_lt hg hxu)
+  | succ k ih =>
+    intro S hd hb hl
+    by_cases hc : isClosed g ends S = true
+    · rw [closeN_of_closed hc]; exact hc
+    · unfold closeN
+      have hnew : ∃ x, x ∈ S.flatMap (succs g ends) ∧ x ∉ S := by
+        apply Classical.byContradiction
+        intro hno
+        apply hc
+        rw [isClosed_iff]
+        intro x hx
+        apply Classical.byContradiction
+        intro hxs
+        exact hno ⟨x, hx, hxs⟩
+      obtain ⟨x, hx, hxs⟩ := hnew
+      have hlt := addNew_length_lt hx hxs
+      apply ih _ (addNew_nodup hd)
+      · intro y hy
+        rcases mem_addNew.mp hy with h | h
+        · exact hb y h
+        · obtain ⟨u, _, hyu⟩ := List.mem_flatMap.mp h
+          exact succs_lt hg hyu
+      · omega
+
+/-- **`get_downstream_units` terminates within `n` rounds**: the model never reports `Err.fuel`. -/
+theorem downstreamOf_total {g : Graph} (hg : g.SinksOK) (ends us : List Nat) :
+    ∃ S, downstreamOf g ends us = .ok S := by
+  unfold downstreamOf
+  have : isClosed g ends (closeN g ends g.n (addNew [] (us.flatMap (succs g ends)))) = true := by
+    apply closeN_closed hg ends g.n _ (addNew_nodup List.nodup_nil)
+    · intro x hx
+      rcases mem_addNew.mp hx with h | h
+      · exact absurd h List.not_mem_nil
+      · obtain ⟨u, _, hxu⟩ := List.mem_flatMap.mp h
+        exact succs_lt hg hxu
+    · omega
+  simp only [this, if_true]
+  exact ⟨_, rfl⟩
+
+theorem mkPSs_total {g : Graph} (hg : g.SinksOK) (ends : List Nat) (path : List Item) :
+    ∃ ps, mkPSs g ends path = .ok ps := by
+  induction path with
+  | nil => exact ⟨[], rfl⟩
+  | cons i is ih =>
+    obtain ⟨S, hS⟩ := downstreamOf_total hg ends i.flat
+    obtain ⟨ps, hps⟩ := ih
+    unfold mkPSs mkPS
+    simp only [hS, hps]
+    exact ⟨_, rfl⟩
+
+theorem sortLevel_total {g : Graph} (hg : g.SinksOK) (ends : List Nat) (path : List Item) (r : List Nat) :
+    ∃ o, sortLevel g ends path r = .ok o := by
+  obtain ⟨ps, hps⟩ := mkPSs_total hg ends path
+  unfold sortLevel
+  simp only [hps]
+  exact ⟨_, rfl⟩
+
+mutual
+theorem sortItem_total {g : Graph} (hg : g.SinksOK) (ends : List Nat) : ∀ (it : Item), ∃ r, sortItem g ends it = .ok r
+  | .unit u => ⟨_, rfl⟩
+  | .net p r => by
+    obtain ⟨⟨p', w⟩, hp⟩ := sortList_total hg ends p
+    obtain ⟨o, ho⟩ := sortLevel_total hg ends p' r
+    unfold sortItem
+    simp only [hp, ho]
+    exact ⟨_, rfl⟩
+theorem sortList_total {g : Graph} (hg : g.SinksOK) (ends : List Nat) : ∀ (p : List Item), ∃ r, sortList g ends p = .ok r
+  | [] => ⟨_, rfl⟩
+  | i :: is => by
+    obtain ⟨⟨i', w⟩, hi⟩ := sortItem_total hg ends i
+    obtain ⟨⟨is', w'⟩, his⟩ := sortList_total hg ends is
+    unfold sortList
+    simp only [hi, his]
+    exact ⟨_, rfl⟩
+end
+
+section DfsTotal
+variable {g : Graph} {units : List Nat}
+
+theorem foldlM_total (fuel : Nat) (path : List Nat)
+    (ih : ∀ feed st, ∃ st', fillPath g units fuel feed path st = .ok st') (os : List Nat) (st : DfsSt) :
+    ∃ st', os.foldlM (fun st o => fillPath g units fuel o path st) st = .ok st' := by
+  induction os generalizing st with
+  | nil => exact ⟨st, rfl⟩
+  | cons o os ihos =>
+    obtain ⟨st1, h1⟩ := ih o st
+    obtain ⟨st2, h2⟩ := ihos st1
+    refine ⟨st2, ?_⟩
+    simp only [List.foldlM_cons, bind, Except.bind, h1]
+    exact h2
+
+/-- the recursion depth of `fill_path` is bounded by the number of units -/
+theorem fillPath_total (fuel : Nat) :
+    ∀ (feed : Nat) (path : List Nat) (st : DfsSt), path.Nodup → (∀ x, x ∈ path → x ∈ units) →
+      units.length + 1 ≤ fuel + path.length → ∃ st', fillPath g units fuel feed path st = .ok st' := by
+  induction fuel with
+  | zero =>
+    intro feed path st hd hs hl
+    have := hd.length_le_of_subset (l₂ := units) (fun x hx => hs x hx)
+    omega
+  | succ fuel ih =>
+    intro feed path st hd hs hl
+    unfold fillPath
+    split
+    · exact ⟨_, rfl⟩
+    · rename_i unit hk
+      split
+      · exact ⟨_, rfl⟩
+      · rename_i hin
+        have hunit : unit ∈ units := by
+          have : units.contains unit = true := by simpa using hin
+          exact List.contains_iff_mem.mp this
+        split
+        · exact ⟨_, rfl⟩
+        · split
+          · split
+            · split
+              · exact ⟨_, rfl⟩
+              · exact ⟨_, rfl⟩
+            · exact ⟨_, rfl⟩
+          · rename_i hnp
+            have hnp' : unit ∉ path := fun hm => hnp (List.contains_iff_mem.mpr hm)
+            have hd' : (path ++ [unit]).Nodup := by
+              rw [List.nodup_append]
+              refine ⟨hd, by simp, ?_⟩
+              intro a ha b hb
+              simp only [List.mem_singleton] at hb
+              subst hb
+              intro e; subst e; exact hnp' ha
+            have hs' : ∀ x, x ∈ path ++ [unit] → x ∈ units := by
+              intro x hx
+              rcases List.mem_append.mp hx with h | h
+              · exact hs x h
+              · simp only [List.mem_singleton] at h; subst h; exact hunit
+            have hl' : units.length + 1 ≤ fuel + (path ++ [unit]).length := by simp; omega
+            simp only
+            split
+            · exact ⟨_, rfl⟩
+            · rename_i first others ho
+              obtain ⟨st1, h1⟩ := foldlM_total fuel (path ++ [unit]) (fun f a => ih f _ a hd' hs' hl') others st
+              obtain ⟨st2, h2⟩ := ih first (path ++ [unit]) st1 hd' hs' hl'
+              simp only [h1]
+              exact ⟨st2, h2⟩
+
+/-- **`find_paths_with_and_without_recycle` never exhausts the recursion bound.** -/
+theorem findPaths_total (g : Graph) (units : List Nat) (feed : Nat) (ends : List Nat) :
+    ∃ st, findPaths g units feed ends = .ok st := by
+  unfold findPaths
+  exact fillPath_total _ feed [] _ List.nodup_nil (fun x hx => absurd hx List.not_mem_nil) (by simp)
+
+end DfsTotal
+
+theorem flatList_units_getElem? {p : List Item} (h : ∀ it ∈ p, ∃ u, it = .unit u) (i a : Nat) :
+    (flatList p)[i]? = some a ↔ p[i]? = some (.unit a) := by
+  induction p generalizing i with
+  | nil => simp [flatList]
+  | cons x xs ih =>
+    obtain ⟨u, rfl⟩ := h _ (List.mem_cons_self ..)
+    have ih' := ih (fun it hit => h it (List.mem_cons_of_mem _ hit))
+    simp only [flatList, Item.flat, List.singleton_append]
+    cases i with
+    | zero => simp
+    | succ i => simpa using ih' i
+
+theorem edge_ends_iff {g : Graph} {ends : List Nat} (hends : ∀ s, s ∈ ends → g.sinkOf s = none) (u v : Nat) :
+    Edge g ends u v ↔ Edge g [] u v := by
+  constructor
+  · rintro ⟨s, hs, _, hk⟩; exact ⟨s, hs, List.not_mem_nil, hk⟩
+  · rintro ⟨s, hs, _, hk⟩
+    refine ⟨s, hs, fun hm => ?_, hk⟩
+    rw [hends s hm] at hk; exact absurd hk (by simp)
+
+theorem reach_ends_iff {g : Graph} {ends : List Nat} (hends : ∀ s, s ∈ ends → g.sinkOf s = none) (u v : Nat) :
+    Reach g ends u v ↔ Reach g [] u v := by
+  constructor
+  · intro h
+    induction h with
+    | single e => exact Relation.TransGen.single ((edge_ends_iff hends _ _).mp e)
+    | tail _ e ih => exact Relation.TransGen.tail ih ((edge_ends_iff hends _ _).mp e)
+  · intro h
+    induction h with
+    | single e => exact Relation.TransGen.single ((edge_ends_iff hends _ _).mpr e)
+    | tail _ e ih => exact Relation.TransGen.tail ih ((edge_ends_iff hends _ _).mpr e)
 
 /-! ## misc -/
 
